@@ -11,7 +11,7 @@ import (
 
 func init() {
 	register(&propDef{
-		ID: "C08", Level: "other", Run: runC08,
+		ID: "C08", Level: "other", Run: withShared(runC08, share{"C17", runC17, ruleIs("search-starts-after-dealer")}),
 		Explanation: "The predicate 'this seat can play' is implemented several times (the search used for dealer and blinds, the single-seat fallback, the playable list and count behind the exported getters, and the table layer's Playable flag). Each implementation's acceptance condition is extracted as a decision table over {IsActive, IsReserved, Player == nil} and must equal occupied AND active AND not reserved. Inside Next, the position fields are stored only from results of that search (the small blind also from the dealer under the exactly-two test); the small-blind search starts strictly after the dealer in the clockwise ring starting at the dealer, and the big-blind search strictly after the small blind; the ring builder walks max seats clockwise from its start id. The position strings the table writes for the dealer/sb/bb seats are the ones the engine compares, each paired with the seat manager getter of the same role, and the game's players are the playable seats in ring order with their own positions. Does NOT decide which seat is first clockwise as a value, nor the dealt-in timing after a mid-hand join.",
 		Trusted:     commonTrusted,
 		Assumptions: []string{"exported getters (GetPlayableSeats, GetPlayableSeatCount, Dealer, SmallBlind, BigBlind) are API and resolved by name; helpers are resolved by role"},
@@ -85,6 +85,46 @@ func acceptExitReturn(ps *PathSum) bool {
 	return strings.HasPrefix(ps.End, "exit-return") && len(ps.Ret) > 0 && ps.Ret[0].String() != "nil"
 }
 
+// hitExits: the loop exits of fn after which the function returns a non-nil first result without
+// doing anything else (go/ssa places "return x[i], i" of an index loop outside the loop).
+func hitExits(p *Prog, fn *ssa.Function) map[string]bool {
+	s := newSumm(p, 0)
+	s.EngineAliases = false
+	paths, _ := s.Function(fn)
+	out := map[string]bool{}
+	for _, ps := range paths {
+		if ps.End != "return" || len(ps.Ret) == 0 || ps.Ret[0].String() == "nil" {
+			continue
+		}
+		n := 0
+		for _, e := range ps.Events {
+			if e.Kind != "loop" {
+				n++
+			}
+		}
+		if n > 0 {
+			continue
+		}
+		for _, cd := range ps.Conds {
+			if cd.V.K == KAtom && cd.V.At.Op == "b" && strings.Contains(cd.V.At.L, ".exit→") {
+				out[cd.V.At.L[strings.Index(cd.V.At.L, "→")+len("→"):]] = true
+			}
+		}
+	}
+	return out
+}
+
+// acceptHit: a body path that leaves the loop with the hit, in either SSA shape.
+func acceptHit(p *Prog, fn *ssa.Function) func(ps *PathSum) bool {
+	hits := hitExits(p, fn)
+	return func(ps *PathSum) bool {
+		if acceptExitReturn(ps) {
+			return true
+		}
+		return strings.HasPrefix(ps.End, "exit:") && hits[strings.TrimPrefix(ps.End, "exit:")]
+	}
+}
+
 func acceptAppend(ps *PathSum) bool {
 	for k, v := range ps.Store {
 		if strings.HasPrefix(k, "backedge:") && v.Op == "append" {
@@ -125,7 +165,7 @@ func playableSites(c *Ctx) []playableSite {
 				}
 				if call, ok := v.(*ssa.Call); ok {
 					if f := call.Common().StaticCallee(); f != nil && inModule(f) {
-						add(f, "search feeding "+strings.TrimPrefix(k, "seat_manager.SeatManager."), acceptExitReturn)
+						add(f, "search feeding "+strings.TrimPrefix(k, "seat_manager.SeatManager."), acceptHit(p, f))
 					}
 				}
 			}
@@ -182,6 +222,7 @@ func runC08(c *Ctx) {
 		c.touch(fnKey(site.Fn))
 		s := newSumm(p, 0)
 		s.EngineAliases = false
+		s.HelperInline = purePredicate(p, site.Fn) // a predicate extracted into a helper is still the predicate
 		var best []string
 		okAny := false
 		for _, l := range s.loops(site.Fn) {
@@ -280,12 +321,23 @@ func runC08(c *Ctx) {
 		}
 		c.floor("positions-from-search", "position stores inside Next", nSt, 3)
 		// search ranges in the blind assigner
+		// the blind assigner: the function Next calls that stores the big blind, itself or through
+		// package-private helpers, which are then analysed as part of it
 		var assigner *ssa.Function
-		for fn := range tree {
+		writesBB := func(fn *ssa.Function) bool {
+			if ix.Info[fn] == nil {
+				return false
+			}
 			for _, w := range ix.Info[fn].Writes {
 				if w.Key == "seat_manager.SeatManager.bb" {
-					assigner = fn
+					return true
 				}
+			}
+			return false
+		}
+		for _, cc := range ix.Info[next].Calls {
+			if f := cc.StaticCallee(); f != nil && assigner == nil && ix.Info[f] != nil && (writesBB(f) || ix.Info[f].TWrites["seat_manager.SeatManager.bb"]) {
+				assigner = f
 			}
 		}
 		if assigner == nil {
@@ -294,6 +346,13 @@ func runC08(c *Ctx) {
 			c.role("blind assigner", fnKey(assigner))
 			s := newSumm(p, 0)
 			s.EngineAliases = false
+			{
+				base := smHelperFilter(p, assigner)
+				top := assigner
+				s.HelperInline = func(f *ssa.Function) bool {
+					return base(f) || (privateHelper(top, f) && ix.Info[f] != nil && (writesBB(f) || ix.Info[f].TWrites["seat_manager.SeatManager.bb"]) && len(findSentinelsOf(p, f)) == 0)
+				}
+			}
 			paths, _ := s.Function(assigner)
 			var bad []string
 			for _, ps := range paths {
@@ -360,6 +419,7 @@ func runC08(c *Ctx) {
 		}
 	} else {
 		c.touch(fnKey(rb))
+		c.role("ring builder", fnKey(rb))
 		s := newSumm(p, 0)
 		s.EngineAliases = false
 		var bad []string
@@ -614,4 +674,17 @@ func runC08Strings(c *Ctx) {
 		}
 	}
 	c.check(ok, "position-strings", fnKey(starter)+"#players-from-playable-seats", p.FnPos(starter), "the game's players are the playable seats in ring order, each with its own positions", "players are not built from the playable seats: "+why)
+}
+
+// purePredicate: package-private, loop-free, effect-free helpers with a single bool result are
+// analysed where they are used.
+func purePredicate(p *Prog, owner *ssa.Function) func(*ssa.Function) bool {
+	ix := p.Index()
+	return func(f *ssa.Function) bool {
+		if !privateHelper(owner, f) || len(findLoops(f)) > 0 || f.Signature.Results().Len() != 1 || !isBoolType(f.Signature.Results().At(0).Type()) {
+			return false
+		}
+		fi := ix.Info[f]
+		return fi != nil && len(fi.Writes) == 0
+	}
 }
